@@ -2,7 +2,12 @@
 """C20 - the auto-reloader never loses a reload request (DESIGN.md §3 C20).
 
 The harness bin c20 (hook H3) is a deterministic scheduler around the real AutoReloader: worker threads
-park at every lock acquisition, a controller releases one at a time.  This check enumerates ALL
+park at every lock acquisition AND inside the user callbacks (freshness callback, on-should-reload callback: they
+run with the notifier mutex held and may take arbitrarily long), a controller releases one at a time.  While a
+thread is parked inside a callback, a thread that is about to take the notifier mutex is released speculatively:
+the controller observes (kernel thread state) whether it goes to sleep on the mutex (event BLOCKED, the model's
+LBlocked) or gets past the lock attempt - a lock attempt that neither acquires nor blocks (try_lock) is then an
+ordinary, visible step that the model rejects and the spec judges.  This check enumerates ALL
 schedules of small thread configurations (2 request_reload + 2 acquire_env exhaustively in quick,
 3 + 3 sampled; thorough: 3 + 3 exhaustively for the layouts where that is feasible), and for every
 observed trace
@@ -17,7 +22,8 @@ from vlib import *
 import vlib
 
 HOOK_DEP = '"minijinja-autoreload/verif_hooks"'
-POINTS = {1: "request:set-flag", 2: "request:notify+return", 3: "acquire:lock-cache", 4: "acquire:should_reload",
+POINTS = {11: "freshness-callback:return", 12: "on-should-reload-callback:return", 13: "BLOCKED on the notifier mutex before",
+          1: "request:set-flag", 2: "request:notify", 3: "acquire:lock-cache", 4: "acquire:should_reload",
           5: "acquire:reset-flag", 6: "acquire:fast_reload?", 7: "creator:start", 8: "creator:end",
           9: "acquire:restore-flag", 10: "guard:drop"}
 
@@ -95,7 +101,7 @@ def jobs_for(chk):
         for fast in (0, 1):
             for fresh in (0, 1, 2, 3):
                 for oncb in (0, 1):
-                    for scr in SMALL_SCRIPTS:
+                    for scr in (SMALL_SCRIPTS if (oncb == 0 or chk.thorough) else SMALL_SCRIPTS[:5]):
                         ex.append(("small", (fast, fresh, oncb, scr, lay), 1))
     for lay in L22:
         nth = len(lay)
@@ -122,42 +128,45 @@ def jobs_for(chk):
 # one batch of harness work, executed in a worker process
 # ----------------------------------------------------------------------------------------------
 def direct_check(events):
-    """The property on the implementation's observations only.  Returns list of violated clauses."""
-    nset = 0
+    """The property on the implementation's observations only (no model, no flag): a requester publishes source
+    version k (event REQ_SET carries k) and then calls request_reload(); once that call has returned (g == -2),
+    every acquire_env that starts afterwards must hand out an environment whose template shows a source version >= k.
+    Returns list of violated clauses."""
     pend = {}
     retmax = 0
     need = {}
     held = None
     bad = []
-    for (t, p, a, g, v) in events:
+    for (t, p, a, g, v, w) in events:
         if p == 1:
-            nset += 1
-            pend[t] = nset
-        elif p == 2:
+            pend[t] = a
+        if g == -2:
             retmax = max(retmax, pend.get(t, 0))
-        elif p == 3:
+        if p == 3:
             need[t] = retmax
         elif p == 7 and held is not None:
             bad.append("guard_excludes: creator started while a guard was held")
         if p == 10:
-            if held != (t, g, v):
-                bad.append("guard_excludes: guard of thread %d dereferenced to (gen %d, version %d) at drop, acquired %s" % (t, g, v, held))
+            if held != (t, g, v, w):
+                bad.append("guard_excludes: guard of thread %d dereferenced to (gen %d, requests %d, source version %d) at drop, acquired %s" % (t, g, v, w, held))
             held = None
         elif g > 0:
             if held is not None:
                 bad.append("guard_excludes: environment handed out while another guard was held")
-            held = (t, g, v)
-            if v < need.get(t, 0):
-                bad.append("no_lost_request: thread %d was handed generation %d reflecting %d request(s) although request #%d had returned before its acquire_env started" % (t, g, v, need[t]))
+            held = (t, g, v, w)
+            if w < need.get(t, 0):
+                bad.append("no_lost_request: thread %d was handed generation %d showing source version %d although the request_reload for version %d had returned before its acquire_env started" % (t, g, w, need[t]))
     return bad
 
 
 def classify(events):
-    """where requests landed; is the run non-trivial (a request took effect while the cache mutex was held)"""
+    """where requests took effect / were attempted; a run is non-trivial when at least one of them is not 'idle'"""
     holder = None
     last = 0
     where = []
-    for (t, p, a, g, v) in events:
+    for (t, p, a, g, v, w) in events:
+        if p == 13:
+            where.append("blocked on the notifier mutex (other thread inside a callback): " + POINTS.get(a, str(a)))
         if p == 1:
             if holder is None:
                 where.append("idle")
@@ -165,17 +174,16 @@ def classify(events):
                 where.append("inside-creator(same thread)")
             else:
                 where.append({3: "after-lock", 4: "after-check", 5: "after-flag-reset", 6: "after-fast-check", 7: "during-creator",
-                              8: "after-creator", 9: "after-restore"}.get(last, "guard-held" if last in (4, 6, 8) else "held"))
+                              8: "after-creator", 9: "after-restore", 11: "after-check", 12: "after-check", 40: "guard-held"}.get(last, "guard-held"))
         if p == 3:
             holder = t
             last = 3
-        elif holder == t and p in (4, 5, 6, 7, 8, 9):
+        elif holder == t and p in (4, 5, 6, 7, 8, 9, 11, 12):
             last = p
             if g > 0:
                 last = 40  # guard out
         if p == 10 or g == -1:
             holder = None
-    where = ["guard-held" if w == "held" else w for w in where]
     return where
 
 
@@ -227,7 +235,7 @@ def work(job):
         case = [int(x) for x in r[0].split()]
         ev = [int(x) for x in r[1].split()]
         tot = [int(x) for x in r[2].split()]
-        events = [tuple(ev[4 + 5 * k: 9 + 5 * k]) for k in range(ev[3])]
+        events = [tuple(ev[4 + 6 * k: 10 + 6 * k]) for k in range(ev[3])]
         m = [int(x) for x in mo[i].split()]
         s = [int(x) for x in so[i].split()]
         res["runs"] += 1
@@ -240,8 +248,9 @@ def work(job):
         if bad or sbad:
             if len(res["viol"]) < 3:
                 res["viol"].append({"case": case, "events": events, "direct": bad, "spec": sbad})
-        # Python and Coq evaluate the same clauses 1 and 2: they must agree
-        if (any(b.startswith("no_lost") for b in bad) != ("no_lost_request" in sbad)) or (any(b.startswith("guard") for b in bad) != ("guard_excludes" in sbad)):
+        # Python and Coq evaluate the same guard clause: they must agree (no_lost_request is evaluated on different
+        # observations: source versions here, request counts in Spec.v)
+        if any(b.startswith("guard") for b in bad) != ("guard_excludes" in sbad):
             if len(res["incons"]) < 3:
                 res["incons"].append({"case": case, "direct": bad, "spec": sbad})
         ok_model = (m[:1] == [0]) and tot[0] == m[1] + m[2] and tot[1] == m[3]
@@ -250,11 +259,11 @@ def work(job):
         where = classify(events)
         hkey = hashlib.sha256(r[0].encode()).digest()[:8]  # configuration + complete schedule (determines the trace)
         res["distinct"].add(hkey)
-        if any(w != "idle" for w in where):
+        if any(w != "idle" for w in where):  # incl. blocked attempts
             res["nontrivial"].add(hkey)
         H = res["hist"]
         for w in where:
-            H["request lands: " + w] += 1
+            H[("request lands: " + w) if not w.startswith("blocked") else w] += 1
         H["events/run: %d-%d" % (len(events) // 10 * 10, len(events) // 10 * 10 + 9)] += 1
         H["creator calls/run: %d" % (m[1] if m[:1] == [0] else -1)] += 1
         nerr = sum(1 for e in events if e[3] == -1)
@@ -283,19 +292,29 @@ def readable(sample, note=None):
     ns = case[i]
     sched = case[i + 1:i + 1 + ns]
     evs = []
-    for (t, p, a, g, v) in sample["events"]:
-        s = "T%d %s" % (t, POINTS.get(p, p))
+    for (t, p, a, g, v, w) in sample["events"]:
+        x = "T%d %s" % (t, POINTS.get(p, p))
+        if p == 13:
+            x += " " + str(POINTS.get(a, a))
+        if p == 1:
+            x += " (source version %d published)" % a
         if p == 4 and a:
-            s += " (freshness callback: %s)" % ("stale" if a == 2 else "fresh")
+            x += " (now inside the freshness callback, notifier mutex held)"
+        if p in (2, 11) and a >= 4:
+            x += " (now inside the on-should-reload callback, notifier mutex held)"
+        if p == 11:
+            x += " (answer: %s)" % ("stale" if a % 4 == 2 else "fresh")
         if p == 7:
-            s += " (generation %d)" % a
+            x += " (generation %d)" % a
         if p == 8:
-            s += " (Ok)" if a else " (Err)"
+            x += " (Ok)" if a else " (Err)"
         if g == -1:
-            s += " -> acquire_env returns Err"
+            x += " -> acquire_env returns Err"
+        elif g == -2:
+            x += " -> request_reload returns"
         elif g > 0:
-            s += " -> %s env generation %d reflecting %d request(s)" % ("guard still on" if p == 10 else "acquire_env returns", g, v)
-        evs.append(s)
+            x += " -> %s env generation %d reflecting %d request(s), source version %d" % ("guard still on" if p == 10 else "acquire_env returns", g, v, w)
+        evs.append(x)
     d = {"config": describe_cfg(fast, fresh, oncb, cre, th), "schedule": sched, "trace": evs}
     if note:
         d["note"] = note
@@ -307,13 +326,15 @@ def main():
     chk = Check("C20", "proof")
     chk.cov["trusted_base"] = TRUSTED_COMMON + [
         "hook H3 (cargo feature verif_hooks of minijinja-autoreload): yield points before each lock acquisition and around the creator call; "
-        "the scheduler in harness/src/bin/c20.rs (one thread runs at a time, cache-mutex availability tracked from the observed events, watchdog on every hand-over)",
+        "the scheduler in harness/src/bin/c20.rs (one thread runs at a time, cache-mutex availability tracked from the observed events, notifier-mutex availability = a thread is parked inside "
+        "a user callback, blocked-vs-progressed decided from /proc/self/task/<tid>/stat (3 consecutive 'S' readings while the thread has not parked), at most one thread asleep on the notifier mutex, watchdog on every hand-over)",
         "std::sync::Mutex is a mutex; behaviour of the `notify` crate (file watcher calls the same flag-setting section as request_reload) is not exercised",
         "Print Assumptions: all theorems closed under the global context (no axioms)"]
     chk.assumptions = [
         "modelled: AutoReloader::acquire_env, EnvironmentGuard, Notifier::{request_reload, should_reload, fast_reload, prepare_and_mark_reload, restore_reload} at lock-acquisition granularity; "
         "threads and operations unbounded in the proofs; fast_reload / callbacks are fixed before the threads start in the enumerated runs",
-        "the creator and the callbacks do not touch the reloader except through request_reload (a creator that calls acquire_env self-deadlocks on the cache mutex by construction)",
+        "the creator does not touch the reloader except through request_reload (a creator that calls acquire_env self-deadlocks on the cache mutex by construction); the freshness and on-should-reload "
+        "callbacks do not call into the notifier (they run with its mutex held: re-entrant calls dead-lock by construction) but are preemptible: every other thread may run, or try to take the mutex, while one is inside",
         "an environment 'reflects a request' iff it was created (creator started) or its templates were cleared after the request's flag-set section completed",
         "file-change notifications run the same two lock sections as request_reload (with_fs_watcher callback) and are represented by it"]
     ok_models, blog = build_models("C20")
@@ -432,12 +453,12 @@ def main():
     chk.cov["evaluations"] = runs
     chk.cov["distinct_nontrivial"] = len(nontriv)
     chk.cov["distinct_traces"] = len(distinct)
-    chk.cov["rule"] = ("every maximal schedule (at lock-acquisition granularity) of each listed thread configuration is executed on the real AutoReloader "
+    chk.cov["rule"] = ("every maximal schedule (at lock-acquisition granularity, user callbacks preemptible with the notifier mutex held, incl. speculative lock attempts of one other thread during a callback) of each listed thread configuration is executed on the real AutoReloader "
                        "(stateless DFS over the enabled threads at each step) for: all 1+1/1+2/2+1/1+3 layouts x fast reload x 4 freshness-callback modes x on_should_reload callback x 8 creator scripts "
                        "(release and debug build), all 2 request + 2 acquire layouts x fast reload x freshness modes x 5 creator scripts; 3 requests + 3 acquires: "
                        + ("exhaustively for the 2- and 3-thread layouts and the 4-thread layout, seeded random schedules for the 6-thread layouts" if chk.thorough else "seeded random schedules")
                        + ". distinct = distinct (configuration, event trace); non-trivial = distinct trace in which at least one request's flag-set takes effect while another "
-                       "operation holds the cache mutex or inside the running creator (i.e. not a sequential history)")
+                       "operation holds the cache mutex or inside the running creator, or a thread goes to sleep on the notifier mutex while another one is inside a callback (i.e. not a sequential history)")
     chk.cov["exhaustive"] = False
     chk.cov["exhaustive_part"] = {"runs": ex_runs, "truncated_enumerations": truncated,
                                   "complete": truncated == 0 and not broken, "what": "all schedules of every configuration labelled small / 2+2" + (" / 3+3" if chk.thorough else "")}
